@@ -5,6 +5,22 @@ ROOT = os.path.dirname(os.path.dirname(os.path.abspath(__file__)))
 
 # id -> (category, technique, level text, level note, design_ref)
 CHECKS = {
+ "C13": ("exploration",
+         "bounded-exhaustive enumeration of sparsity patterns, row permutations and tall shapes x number types x taggings on the real dsolve/fdsolve; residual recomputed in a reference dual arithmetic",
+         "Every zero/non-zero pattern up to 3x3 (4x4 complete in thorough), every row permutation of 4..5 (6)-dimensional systems, generator permutations up to 8x8, every tall shape up to 12x6, for f64 / Dual / Dual2 / Number and four variable taggings; the residual must vanish in value and every first and second derivative component.",
+         "Trusted: dense reference dual arithmetic; generic value table; only well-conditioned systems are judged.",
+         "DESIGN.md §4 C13"),
+ "C14": ("exploration",
+         "bounded-exhaustive enumeration of knot vectors x basis index x derivative order x knot/quarter evaluation points on the real basis functions vs an exact rational Cox-de Boor model",
+         "Orders 1..6 (7), every subset of three interior positions with every multiplicity vector up to k-1, every basis function, m = 0..k+1, every break point incl. both end points and quarter points: non-negativity (exact), support (exact), partition of unity, derivatives.",
+         "Trusted: exact rational polynomial-piece model (itself checked to be a partition of unity).",
+         "DESIGN.md §4 C14"),
+ "C15": ("exploration",
+         "bounded-exhaustive enumeration of knot vectors x admissible site sets x end conditions x data vectors x number types on the real csolve/evaluation vs the exact rational spline",
+         "Orders 2..4 (6), all knot vectors with total interior multiplicity <= 3, every admissible n-subset of a candidate site grid plus natural layouts, five end-condition pairs, unit/generic/monomial data; values and all derivatives, data and abscissa sensitivities for all three spline types, the mapped_value type table and count errors.",
+         "Trusted: exact rational inverse of the exact collocation matrix (model checked to reproduce monomials exactly).",
+         "DESIGN.md §4 C15"),
+
  "C11": ("exploration",
          "bounded-exhaustive enumeration of node sets x every supply permutation x boundary queries on the real curves (both constructors) vs closed forms; exhaustive short sorted lists for index_left",
          "5 rules x all gap vectors over 4 spacings for 2..5 (6) nodes x 3 value sets x every supply permutation x both constructors x node / node+-1d / quarter points / far-outside queries; index_left on every non-decreasing list of length 2..9 (11) over 5 values x 11 queries.",
